@@ -811,7 +811,16 @@ func TestP3Reread(t *testing.T) {
 	rapid.Check(t, func(t *rapid.T) {
 		var data []byte
 		multi := false
-		if k := rapid.IntRange(0, 8).Draw(t, "rereadkind"); k >= 7 {
+		if k := rapid.IntRange(0, 10).Draw(t, "rereadkind"); k >= 9 {
+			// fonts in which one glyph holds a complete feature (flex, an
+			// othersubr sequence, hint replacement) and another one half of
+			// it: whatever a decoder keeps from glyph to glyph shows when the
+			// glyphs are decoded in another order
+			f := hostile.CutFont(t)
+			data = t1ref.WriteRaw(f)
+			multi = len(f.Glyphs) >= 2
+			rec.Class("damaged:cut-charstrings")
+		} else if k >= 7 {
 			// damaged CMap, AFM and PFB files and generated programs through
 			// their own entry points: the outcome (rejected, or the result
 			// digest) must be the same every time
